@@ -283,6 +283,10 @@ class Ev:
                                 return v
                 raise _ModelRaise(f"AttributeError: {n.attr}")
             if isinstance(base, Sym):
+                if hasattr(self.methods, "int_enum_member"):
+                    iv = self.methods.int_enum_member(base.name, n.attr)
+                    if iv is not None:
+                        return iv  # a member of an IntEnum / IntFlag is its integer in arithmetic, comparison and hashing
                 return Sym(f"{base.name}.{n.attr}")
             cname = getattr(base, "_sa_class", None)
             if cname is not None and hasattr(self.methods, "class_attr"):  # `cls.TABLE` in a classmethod, `Klass.TABLE`
